@@ -44,7 +44,7 @@ from . import c09 as _c9
 ID = "C11"
 TIERS = {
     "quick": {"shards": 8, "budget_s": 20},
-    "thorough": {"shards": 16, "budget_s": 360},
+    "thorough": {"shards": 16, "budget_s": 200},
 }
 MIN_EVENTS = {"quick": 200000, "thorough": 5000000}
 EXHAUSTIVE = {"quick": True, "thorough": True}
